@@ -8,11 +8,17 @@ package eval
 
 import (
 	"errors"
+	"strconv"
 
 	netv1 "k8s.io/api/networking/v1"
 
 	"github.com/np-guard/netpol-analyzer/pkg/internal/netpolerrors"
 	"github.com/np-guard/netpol-analyzer/pkg/netpol/eval/internal/k8s"
+)
+
+const (
+	portBase = 10
+	portBits = 32
 )
 
 // this file contains methods for checking wether specific connection between two peers is allowed or not;
@@ -43,6 +49,15 @@ func (pe *PolicyEngine) CheckIfAllowed(src, dst, protocol, port string) (bool, e
 	// cases where any connection is always allowed
 	if isPodToItself(srcPeer, dstPeer) || isPeerNodeIP(srcPeer, dstPeer) || isPeerNodeIP(dstPeer, srcPeer) {
 		return true, nil
+	}
+
+	// the port is a number; it is checked here, before the cache and the policies are consulted: the rules parse it only
+	// when a rule with ports is examined and the policies are visited in the order of a map, so any other string was
+	// answered with an error or with a verdict at random
+	if protocol != "" || port != "" {
+		if _, err := strconv.ParseInt(port, portBase, portBits); err != nil {
+			return false, err
+		}
 	}
 
 	hasResult, res := pe.cache.hasConnectionResult(srcPeer, dstPeer, protocol, port)
